@@ -2,12 +2,82 @@
    Model: Model/Vtt.v transcribes ReadFromWebVTT (header loop, block state machine, regions, cue settings, the
    X-TIMESTAMP-MAP parser), parseTextWebVTT (tag stack, voices, inline timestamps, over the html tokenizer model)
    and WriteToWebVTT; it agrees with the implementation on every generated, mutated and repository document, on
-   the writer's bytes and on hostile single lines (harness).  Theorems so far: totality, schedule independence,
-   fault propagation, nothing-to-write, independence of the map iteration orders.  The write/read fidelity
-   theorem over the model is being proved separately and is added here when it checks (see DESIGN.md). *)
-From Coq Require Import List NArith Permutation.
-From Astisub Require Import Kit.Base Kit.Scan Model.Vtt Proofs.VttIOProofs.
+   the writer's bytes and on hostile single lines (harness).  Theorems: write/read fidelity for ALL representable
+   documents (C02_write_read: cues numbered 1..n, times truncated to the millisecond, settings with their fallbacks
+   resolved, regions by sorted identifier, STYLE blocks, timestamp map, comments, voices, tag stacks with classes
+   and annotations, inline timestamps); a written line parses back to its runs; regions are defined before use
+   (for what the writer wrote and for ANY successfully read input); written lines lie inside the tokenizer model's
+   faithful domain; line-ending conventions; totality, schedule independence, fault propagation, nothing-to-write,
+   independence of the map iteration orders.  Restrictions stated by repr_vdoc / repr_vline (Proofs/VttDoc.v,
+   VttLine.v): adjacent runs with identical tag stacks and no timestamp would be merged by the reader and are
+   excluded; annotations and voice names hold no quote; setting values and region ids are ASCII without spaces. *)
+From Coq Require Import List ZArith NArith Permutation.
+From Astisub Require Import Kit.Base Kit.Str Kit.Scan Model.Dur Model.Vtt Proofs.VttIOProofs Proofs.VttBase Proofs.VttLine Proofs.VttSimple Proofs.VttDoc Proofs.EolProofs.
 Import ListNotations.
+
+(* writing any representable document, then reading it, returns the document (normalised as the format dictates) *)
+Theorem C02_write_read : forall d so ro, repr_vdoc d so ro ->
+  exists data, write_vtt d so ro = Ok data /\ read_vtt data = Ok (ndoc d so ro).
+Proof. exact write_read_vtt. Qed.
+Print Assumptions C02_write_read.
+
+(* the cues read back are numbered 1..n *)
+Theorem C02_cues_numbered : forall d so ro,
+  map vi_idx (vd_items (ndoc d so ro)) = map Z.of_nat (seq 1 (length (vd_items d))).
+Proof. exact written_cues_numbered. Qed.
+Print Assumptions C02_cues_numbered.
+
+(* a written text line (voice, tag stacks evolving from run to run, inline timestamps, escaped text) is parsed back
+   into its runs; exactly, when the runs are canonical (no empty tag list, times on the millisecond grid) *)
+Theorem C02_line_roundtrip : forall l, repr_vline l = true ->
+  parse_text_vtt (removelast (vline_bytes l)) [] = (nline l, []).
+Proof. exact parse_vline. Qed.
+Print Assumptions C02_line_roundtrip.
+Theorem C02_line_roundtrip_exact : forall l, repr_vline l = true -> forallb run_canon (vl_runs l) = true ->
+  parse_text_vtt (removelast (vline_bytes l)) [] = (l, []).
+Proof. exact parse_vline_exact. Qed.
+Print Assumptions C02_line_roundtrip_exact.
+
+(* the timestamp map survives (local part to the millisecond) *)
+Theorem C02_timestamp_map : forall l m, (0 <= l <= max_int64)%Z -> (0 <= m <= max_int64)%Z ->
+  parse_tsmap (tsmap_string (l, m)) = Some (trunc_ms l, m).
+Proof. exact parse_tsmap_string. Qed.
+Print Assumptions C02_timestamp_map.
+
+(* regions are defined before use: in what the writer wrote ... *)
+Theorem C02_written_regions_defined : forall d so ro, repr_vdoc d so ro ->
+  Forall (fun it' => match vi_region it' with
+                     | Some id => exists rg, aget id (vd_regions (ndoc d so ro)) = Some (nregion rg) /\ rg_id rg = id /\
+                                             In (region_line rg) (hdr_lines d so ro)
+                     | None => True
+                     end) (vd_items (ndoc d so ro)).
+Proof. exact written_regions_defined. Qed.
+Print Assumptions C02_written_regions_defined.
+(* ... and in ANY input the reader accepts *)
+Theorem C02_read_regions_defined : forall data d, read_vtt data = Ok d ->
+  Forall (fun it => match vi_region it with
+                    | Some id => exists rg, aget id (vd_regions d) = Some rg /\ rg_id rg = id
+                    | None => True
+                    end) (vd_items d).
+Proof. exact read_vtt_regions_defined. Qed.
+Print Assumptions C02_read_regions_defined.
+
+(* what the writer writes lies inside the domain on which the markup tokenizer model is declared faithful *)
+Theorem C02_written_line_in_faithful_domain : forall l, repr_vline l = true -> line_html_ok l = true ->
+  vtt_line_simple (removelast (vline_bytes l)) = true.
+Proof. exact written_line_simple. Qed.
+Print Assumptions C02_written_line_in_faithful_domain.
+
+(* LF, CR LF and lone CR denote the same document *)
+Theorem C02_eol : forall e (ls : list str), eol_ok e -> Forall brkfree ls ->
+  read_vtt (render_eol e ls) = read_vtt_lines ls false.
+Proof. intros e ls He HF. unfold read_vtt. rewrite (lines_render e ls He HF). reflexivity. Qed.
+Print Assumptions C02_eol.
+
+(* non-vacuity: a document with comments, a voice, nested tags, an inline timestamp, settings with fallbacks, two
+   regions, a STYLE block and a timestamp map satisfies repr_vdoc *)
+Example C02_example : repr_vdoc ex_doc ex_so ex_ro.
+Proof. exact ex_doc_repr. Qed.
 
 Theorem C02_reader_total : forall ls e p, read_vtt_lines ls e <> Panic p.
 Proof. exact read_vtt_lines_no_panic. Qed.
